@@ -109,8 +109,9 @@ Print Assumptions C06_no_deadline_is_invariant.
 (* ------------------------------------------------------------------ C06_deadline_lifecycle *)
 (* (keep) Every command other than SET, MSET, SETEX, EXPIRE, PERSIST, RENAME -- GET, GETRANGE,
    SETRANGE, APPEND, INCR*, DECR*, SETNX, STRLEN, MGET, DEL, EXISTS, KEYS, TTL, TYPE and every
-   list (incl. the blocking pops), hash and sorted-set command, i.e. every command of every family
-   in [Exec.families] -- leaves every deadline alone: a key present after the step has the deadline
+   list (incl. the blocking pops), hash, set (SADD, SREM, SMOVE, SPOP, ...), sorted-set and stream
+   command, i.e. every command of every family in [Exec.families] except the three *STORE forms
+   below -- leaves every deadline alone: a key present after the step has the deadline
    it had in the view before the step, and none if the step created it. *)
 Theorem C06_deadline_lifecycle_keep : forall d now nowms args hint k v' t',
   db_wf d -> changes_ttl (cmd_name args) = false ->
@@ -118,6 +119,24 @@ Theorem C06_deadline_lifecycle_keep : forall d now nowms args hint k v' t',
   t' = deadline_of (view d now k).
 Proof. exact exec_keeps_deadlines. Qed.
 Print Assumptions C06_deadline_lifecycle_keep.
+
+(* (SUNIONSTORE / SINTERSTORE / SDIFFSTORE) overwrite the destination: whatever it held, its
+   deadline is gone *)
+Theorem C06_deadline_lifecycle_store : forall d now nowms c dst ks hint z,
+  store_name (lower c) = true ->
+  fst (exec d now nowms (c :: dst :: ks) hint) = RInt z ->
+  db_ttl (snd (exec d now nowms (c :: dst :: ks) hint)) dst = None.
+Proof. exact exec_store_drops_deadline. Qed.
+Print Assumptions C06_deadline_lifecycle_store.
+
+(* (emptied keys) whatever the command -- LPOP/LREM/LTRIM/LMOVE/BLPOP, HDEL, SREM/SPOP/SMOVE, ZREM,
+   DEL, RENAME -- a key that is absent after the step has no deadline left, so a key re-created
+   under that name starts without one *)
+Theorem C06_absent_key_has_no_deadline : forall d now nowms args hint k,
+  db_wf d -> db_get (snd (exec d now nowms args hint)) k = None ->
+  db_ttl (snd (exec d now nowms args hint)) k = None.
+Proof. exact exec_absent_no_deadline. Qed.
+Print Assumptions C06_absent_key_has_no_deadline.
 
 (* (SET) When SET writes (NX/XX condition met, string or absent key, valid options) the key holds
    the new value and its deadline is [set_deadline]: EXAT n -> n, PX n -> now + ceil(n/1000),
@@ -374,4 +393,19 @@ Example ex_other_families :
   = [RInt 1; RInt 1; RInt 1; RInt 1; RInt 1; RInt 1;
      RBulk (B "v"); RInt 0; RInt 1; RInt 1; RNil;
      RNil; RNil; RInt 0; RInt 1; RInt (-1)].
+Proof. vm_compute. reflexivity. Qed.
+
+(* sets and streams; SINTERSTORE replaces a destination that had a deadline; SPOP empties a set *)
+Example ex_sets_streams :
+  fst (run empty_db
+    [st 100 [B "SADD"; B "s"; B "a"; B "b"]; st 100 [B "SADD"; B "t"; B "b"]; st 100 [B "SET"; B "dst"; B "v"; B "EX"; B "50"];
+     st 100 [B "XADD"; B "x"; B "5-1"; B "f"; B "v"]; st 100 [B "EXPIRE"; B "s"; B "2"]; st 100 [B "EXPIRE"; B "x"; B "2"];
+     st 101 [B "SINTERSTORE"; B "dst"; B "s"; B "t"]; st 101 [B "TTL"; B "dst"]; st 101 [B "SCARD"; B "s"];
+     st 101 [B "XRANGE"; B "x"; B "-"; B "+"; B "COUNT"; B "0"];
+     st 102 [B "SCARD"; B "s"]; st 102 [B "SISMEMBER"; B "s"; B "a"]; st 102 [B "SINTER"; B "s"; B "t"];
+     st 102 [B "XRANGE"; B "x"; B "-"; B "+"]; st 102 [B "SADD"; B "s"; B "n"]; st 102 [B "TTL"; B "s"];
+     mkStep 102 102000 [B "SPOP"; B "s"] (RBulk (B "n")); st 102 [B "EXISTS"; B "s"]])
+  = [RInt 2; RInt 1; rOK; RBulk (B "5-1"); RInt 1; RInt 1;
+     RInt 1; RInt (-1); RInt 2; RNilArr;
+     RInt 0; RInt 0; RArr []; RArr []; RInt 1; RInt (-1); RBulk (B "n"); RInt 0].
 Proof. vm_compute. reflexivity. Qed.
